@@ -78,7 +78,7 @@ def main(tier, seed, replay=None):
     build_scratch()
     rng = random.Random(seed)
     themes = gen.run_themes(THEMES, tier, rep, jobs=11)
-    r, deep = gen.simulate(1500 if tier == 'quick' else 30000,
+    r, deep = gen.simulate(1500 if tier == 'quick' else 8000,
                            maxtok=30 if tier == 'quick' else 40, maxnl=1,
                            seed=seed + 13, workers=8)
     rep.add_tlc(r)
